@@ -45,5 +45,9 @@ CLAIMS["C16"] = {
     "text": "In the handler-level inductive step the real EventManager's events are decoded with the provider's own parsers (sdk.StringifyEvent, sdkutil.ParseEvent, market/deployment ParseEvent) and compared with the pre/post difference of every record: created/closed/paused/started/updated events are emitted exactly once for exactly the objects that changed that way (including changes made inside escrow hooks), carry the object's id and price, and every emitted marketplace event decodes.",
     "note": CHAIN_NOTE + " Prices are symbolic (decimal formatting/parsing modelled as mutually inverse); identifiers in events are the concrete universe ids. Provider and audit events are not covered.",
 }
+CLAIMS["C08"] = {
+    "text": "Bid admission as a one-directional oracle decided by the solver: the real MsgCreateBid.ValidateBasic + market CreateBid handler (with real provider and audit keepers on the store model) are executed on symbolic order state, provider registration, bidder identity, price/deposit amounts and denominations, required/own/attested attributes and all-of/any-of auditor lists; accepted implies every condition of the statement. The attribute kernel GroupSpec.MatchRequirements is checked separately against a set-based oracle with symbolic keys/values; the provider UpdateProvider handler is checked to keep covering the requirements of every active lease.",
+    "note": CHAIN_NOTE + " One-directional: a stricter admission rule is not flagged. Attribute keys are concrete in the handler harness (regexp validation evaluated natively), symbolic 1-byte in the kernel.",
+}
 NOT_APPLICABLE = {}
 NOTES = "Work in progress: checks are added property by property; see DESIGN.md §9 for deviations from the plan."
